@@ -35,7 +35,7 @@ check('C13', 'model_checking',
       'DESIGN.md 3, 4/C13')
 
 check('C09', 'model_checking',
-      'SpyneFault.tla defines the case family (fault class incl. the four dedicated errors and a generated subclass x dotted '
+      'SpyneFault.tla defines the case family (fault class incl. the four dedicated errors, their subclasses with and without a fault code of their own, and a generated subclass x dotted '
       'code with 1-4 segments and any first segment x message class x detail tree; six non-Fault exception kinds carrying a '
       'random secret in text, args, type name and cause) x 8 output families x 2 methods, and the expected client view '
       '(code, message, detail, status table, generic Server/Internal Error). TLC exports the family, the real objects are '
@@ -55,7 +55,7 @@ check('C10', 'model_checking',
       'DESIGN.md 4/C10')
 
 check('C12', 'model_checking',
-      'SpyneWsdlCache.tla (one action per shared access of handle_wsdl_request, failing first build included) is model-checked '
+      'SpyneWsdlCache.tla (one action per shared access of handle_wsdl_request, failing first build included - bound to a failure at the END of the real build, so that the retry meets what the failed attempt left behind) is model-checked '
       'for 2-4 threads (built once, whole document, lock discipline, every requester answers) and every 2-thread behaviour '
       '(an edge cover plus random walks for 3 threads) is IMPOSED on a real WsgiApplication with the real state compared '
       'after each step. Real schedules of 2-4 racing ?wsdl requests are enumerated with a preemption bound at shared-access '
@@ -72,7 +72,7 @@ check('C11', 'model_checking',
       'the table is independent of the service order and the primary is first. Every such application is built as real '
       'services (construction outcome compared) and every registered name and near miss x {unqualified, tns, other ns} is '
       'sent as XML root tag, SOAP body child, JSON key, msgpack key, msgpack-rpc field and HttpRpc URL; per-function '
-      'counters must equal the handles. SpyneHttpPattern.tla gives the expected route of every (verb, host, path).',
+      'counters must equal the handles. SpyneHttpPattern.tla gives the expected route of every (verb, host, path), literal address text with regex metacharacters included.',
       'TLA+ model checking (TLC) + exhaustive replay of TLC-enumerated applications and lookups',
       'DESIGN.md 4/C11')
 
@@ -110,12 +110,12 @@ check('C08', 'exploration',
       'DESIGN.md 4/C08')
 
 check('C05', 'exploration',
-      'SpyneValidate.tla defines 2 063 cases (one facet group and one probe each: numeric ranges, fixed-width bounds - '
+      'SpyneValidate.tla defines 2 114 cases (one facet group and one probe each: numeric ranges, fixed-width bounds - '
       'exhaustively -130..260 for the 8-bit types, 32/64-bit bounds as digit strings - string length, whole-string pattern, '
-      'enumeration, occurrence counts 0..3 against min/max, nullability, instants written with four UTC offsets, zone-less literals of a zoned type, times of day, inherited / renamed / XML-attribute mandatory members, lexical '
+      'enumeration, occurrence counts 0..3 against min/max, nullability, instants written with four UTC offsets, zone-less literals of a zoned type, bounds declared without a zone, an argument map that is null altogether, times of day, inherited / renamed / XML-attribute mandatory members, lexical '
       'well-formedness) with Valid computed in TLA+; TLC checks that every facet is effective and that verdicts are '
       'offset-free, and exports the table. Every case x nesting position {argument, nested field, array member, XML attribute} '
-      'x family {XML, SOAP 1.1, SOAP 1.2, JSON, YAML, MessagePack with text as str and as bin, HttpRpc} is sent as a real request (83 000 requests, written '
+      'x family {XML, SOAP 1.1, SOAP 1.2, JSON, YAML, MessagePack with text as str and as bin, HttpRpc, JsonRpc} is sent as a real request (95 000 requests, written '
       'by independent encoders) and TLC compares user-function-ran / Client-fault with Valid. An exhaustive case table.',
       'TLA+ facet/verdict table (TLC) + evaluation of real accept/reject observations',
       'DESIGN.md 4/C05')
@@ -217,7 +217,7 @@ check('C07', 'exploration',
       'satisfy. Each application is built for real; the structure of its document is extracted and TLC (TraceWsdlDoc) checks per method '
       'OpOnce, InDeclaredPort, MessagesMatch, FaultsDeclared, HeadersDeclared, ZeepDrives and per document Closed (every QName '
       'reference - type, base, element, ref, message, binding, portType, header part - resolves), NoStrayOps, Deterministic (rebuilt '
-      'twice in each of several fresh processes with different PYTHONHASHSEED, and served after six histories of the serving objects - prebuilt, a second transport, asked directly -, sha256 compared). ZeepDrives: a zeep client generated from '
+      'twice in each of several fresh processes with different PYTHONHASHSEED, and served after eight histories of the serving objects - prebuilt, a second transport, asked directly, built twice, retried after a failed build -, sha256 compared). ZeepDrives: a zeep client generated from '
       'the served WSDL alone calls every method (with headers) on the real server under validator=lxml and decodes the value returned. '
       'The schema-assembly side (imports, types per namespace) is modelled and checked in SpyneSchema (C06).',
       'TLA+ application family + structural clauses evaluated by TLC on real documents; independent SOAP toolkit driven by the WSDL',
